@@ -29,16 +29,18 @@ Definition set_mem (a : list str) (l : list (list str)) : bool := existsb (set_e
 
 Definition elem : Type := (nat * str * nat)%type.     (* opens, name, closes *)
 
+(* lang.replace(" ", "_").replace("'", ""): since fix 3e3442f applied at every position *)
+Definition unquote (lang : str) : str := remove_char "'" (replace_char " " "_" lang).
+
 Definition elementise (e : str) : elem :=
   if has_char "(" e then
     (* ind_list gets one entry per "("; the ")" of such a piece are never popped *)
     let lang := cut_at ":" (strip_by (Ascii.eqb "(") e) in
     let lang := replace_char ")" "-" (replace_char "(" "-" lang) in
-    let lang := remove_char "'" (replace_char " " "_" lang) in
-    (count_char "(" e, lang, 0)
+    (count_char "(" e, unquote lang, 0)
   else if has_char ")" e then
-    (0, strip_ws (cut_at ":" (remove_char ")" e)), count_char ")" e)
-  else (0, cut_at ":" e, 0).
+    (0, unquote (strip_ws (cut_at ":" (remove_char ")" e))), count_char ")" e)
+  else (0, unquote (cut_at ":" e), 0).
 
 (* ---------- the stack machine ---------- *)
 
